@@ -85,8 +85,19 @@ impl<T: Qcow2IoOps> Qcow2Dev<T> {
 
     pub(crate) async fn load_l1_table(&self) -> Qcow2Result<usize> {
         let h = self.header.read().await;
-        self.load_top_table(&self.l1table, h.l1_table_offset())
-            .await
+        let res = self
+            .load_top_table(&self.l1table, h.l1_table_offset())
+            .await?;
+
+        // The table in ram is sized for the whole virtual size, but only
+        // the header's `l1_size` entries belong to the table on disk: what
+        // follows them there is something else, not l1 entries.
+        let mut t = self.l1table.write().await;
+        for idx in h.l1_table_entries()..t.entries() {
+            t.set(idx, L1Entry::default());
+        }
+
+        Ok(res)
     }
 
     pub(crate) async fn get_l1_entry(&self, split: &SplitGuestOffset) -> Qcow2Result<L1Entry> {
